@@ -1,4 +1,5 @@
 import Ypv.Lemmas.Search
+import Ypv.Lemmas.SearchPath
 /-!
 # C07 — yaml-paths search is sound and complete, and every printed path resolves
 
@@ -11,7 +12,7 @@ per position.  Documents are `SNode` (= `Node` plus anchored keys and merge keys
 (`optsOfCli` is `main()`'s option handling).
 -/
 namespace Ypv.C07
-open Ypv Ypv.Search
+open Ypv Ypv.Search Ypv.Search.Rr
 
 /-- **Soundness and completeness.**  For every document, every term test and every option mix the
 addresses the search reports, in order, are exactly `Spec.found`: every value — with key-name
@@ -76,6 +77,49 @@ theorem no_expand_is_self (c : Ctx) (hx : c.o.expand = false) (n : SNode) (tmp :
     (seen : List Str) : (emit c n tmp a' seen).1.map Hit.addr = [a'] := by
   simp [emit, hx]
 
+/-- **Every printed path resolves to exactly the matched node.**  Take any hit of the search: its path
+text `h.path` is printed the way `yaml-paths` prints it (`printed` = `str(YAMLPath(text))`, the C08
+object model).  Printing succeeds; the printed text `S`, parsed by the parser model in the notation it
+was printed in, is a list `segs` of KEY / INDEX / ANCHOR segments; and the resolver `resolve`
+(`Spec/SearchResolve.lean`: `_get_nodes_by_key / _by_index / _by_anchor` on `SNode`) follows `segs`
+from the root to exactly one address — the address the hit was reported for.
+
+Hypothesis `okAddr`: none of the recorded finding classes lies on the way to the address (all clauses
+decidable, local to the parents on the way): no other key of a mapping on the way is written the same
+(**K1**, `1` next to `'1'`); keys and anchor names on the way are expressible in the notation (**K2**:
+not empty, no `*`, not starting with `&`, …) and hold no two adjacent backslashes (**K6**, found by this
+proof: `ensure_escaped` takes the pair for an escaped backslash); a merge reference has a non-empty source
+(**K5**) and its name is carried by nothing else in the mapping; an anchored sequence element is the only
+one of its sequence with that anchor (an aliased repeat in the same sequence is one Python object at two
+addresses — `[&a]` then denotes both).  Witnesses of K1 / K2 / K5 / K6 below.
+
+Proof: `hits_walk` (mutual induction over the six search functions: the text is `pathText` of a walk to
+the address), `escapePathSection_eq` (the twelve `ensure_escaped` passes and the leading-slash rule are
+the token writer of C08), `roundtrip_texts` (C08's engine: parse unescaped → render → parse) and
+`resolve_walk`. -/
+theorem search_paths_reresolve (c : Ctx) (d : SNode) (h : Hit) (hh : h ∈ search c d)
+    (hok : okAddr (liveIn d) d h.addr = true) :
+    ∃ S segs, printed h.path = .ok S ∧ parseWith c.o.fslash true S = .ok segs ∧
+      resolve (liveIn d) d segs = [h.addr] := by
+  obtain ⟨ps, hw, hp⟩ := hits_walk c d h hh
+  obtain ⟨hr, hs⟩ := resolve_walk (liveIn d) hw hok
+  obtain ⟨S, h1, h2⟩ := printed_parse c ps hs (walk_noInner hw)
+  exact ⟨S, ps.map PStep.seg, hp ▸ h1, h2, hr⟩
+
+/-- the unprinted text (what `search_for_paths` yields before `str()`) parses to the same segments -/
+theorem search_paths_walk (c : Ctx) (d : SNode) (h : Hit) (hh : h ∈ search c d) :
+    ∃ ps, Walk d h.addr ps ∧ h.path = pathText c [] ps := hits_walk c d h hh
+
+/-- **`escape_path_section` is the C08 writer's escaping**: for every text without two adjacent
+backslashes the 12-pass `ensure_escaped` fold escapes exactly the special characters (`escText`), plus —
+in dot notation — a leading `/` (fix e9c869e). -/
+theorem escapePathSection_is_escText (sep : Char) (hsep : sep = '.' ∨ sep = '/') (t : Str)
+    (h : noDbl t = true) :
+    escapePathSection sep t =
+      (if (escText sep t).head? = some '/' ∧ sep ≠ '/' then '\\' :: escText sep t else escText sep t) := by
+  unfold escapePathSection
+  simp only [ensureEscaped_section hsep t h]
+
 /-! ## Concrete instances (the hypotheses are met, the functions compute) -/
 
 /-- `a: &x {k: v}`, `b: *x`, `c: [&s v, *s]` -/
@@ -109,5 +153,87 @@ def clashDoc : SNode :=
 
 example : (search ⟨{}, fun _ => true⟩ clashDoc) =
     [⟨"1".toList, [.key (.int 1)]⟩, ⟨"1".toList, [.key (.str "1".toList)]⟩] := by decide +kernel
+
+/-! ## Re-resolution: the hypotheses are met, the chain computes; witnesses of the excluded classes -/
+
+/-- print, parse in the notation of the search, resolve: does the hit come back as exactly its address? -/
+def reresolves (c : Ctx) (d : SNode) (h : Hit) : Bool :=
+  match printed h.path with
+  | .ok S =>
+    match parseWith c.o.fslash true S with
+    | .ok segs => resolve (liveIn d) d segs == [h.addr]
+    | .error _ => false
+  | .error _ => false
+
+/-- `a.b: [&s x, y]`, `/k: {k: &v v, <<: *b}` (merge reference known as `b`, inherited entry `i`),
+`b: &b {i: w}`, `s t: !!set {m/n}`, `1: x` -/
+def rrDoc : SNode :=
+  .map none
+    [(⟨none, .str "a.b".toList⟩, .seq none [.scalar (some "s".toList) (.str "x".toList), .scalar none (.str "y".toList)]),
+     (⟨none, .str "/k".toList⟩, .map none [(⟨none, .str "k".toList⟩, .scalar (some "v".toList) (.str "v".toList))]
+        [(⟨none, .str "i".toList⟩, .scalar none (.str "w".toList))] ["b".toList]),
+     (⟨none, .str "b".toList⟩, .map (some "b".toList) [(⟨none, .str "i".toList⟩, .scalar none (.str "w".toList))] [] []),
+     (⟨none, .str "s t".toList⟩, .set none [⟨none, .str "m/n".toList⟩]),
+     (⟨none, .int 1⟩, .scalar none (.str "x".toList))] [] []
+
+def allCtx (fslash : Bool) : Ctx :=
+  ⟨{ searchKeys := true, searchAnchors := true, inclValueAliases := true, fslash := fslash }, fun _ => true⟩
+def valCtx (fslash : Bool) : Ctx := ⟨{ inclValueAliases := true, searchAnchors := true, fslash := fslash }, fun _ => true⟩
+
+/-- the hits with value and reference-name search, dot notation (the merge reference is yielded as
+`\/k.[&b]` and printed `\/k[&b]`) … -/
+def rrHits : List Hit :=
+  [⟨"a\\.b[&s]".toList, [.key (.str "a.b".toList), .idx 0]⟩, ⟨"a\\.b[1]".toList, [.key (.str "a.b".toList), .idx 1]⟩,
+   ⟨"\\/k.k".toList, [.key (.str "/k".toList), .key (.str "k".toList)]⟩,
+   ⟨"\\/k.i".toList, [.key (.str "/k".toList), .key (.str "i".toList)]⟩,
+   ⟨"\\/k.[&b]".toList, [.key (.str "/k".toList), .mref 0]⟩, ⟨"b".toList, [.key (.str "b".toList)]⟩,
+   ⟨"s\\ t.m/n".toList, [.key (.str "s t".toList), .member (.str "m/n".toList)]⟩, ⟨"1".toList, [.key (.int 1)]⟩]
+example : search (valCtx false) rrDoc = rrHits := by decide +kernel
+example : printed "\\/k.[&b]".toList = .ok "\\/k[&b]".toList ∧
+    printed "s\\ t.m/n".toList = .ok "s\\ t.m/n".toList := by decide +kernel
+/-- … every one of them meets the hypothesis of `search_paths_reresolve` and comes back as its address -/
+example : (rrHits.all fun h => okAddr (liveIn rrDoc) rrDoc h.addr && reresolves (valCtx false) rrDoc h) = true := by
+  decide +kernel
+/-- the same in forward-slash notation -/
+example : (search (valCtx true) rrDoc).map Hit.path =
+    ["/a.b[&s]".toList, "/a.b[1]".toList, "/\\/k/k".toList, "/\\/k/i".toList, "/\\/k/[&b]".toList, "/b".toList,
+     "/s\\ t/m\\/n".toList, "/1".toList] := by decide +kernel
+example : reresolves (valCtx true) rrDoc ⟨"/\\/k/[&b]".toList, [.key (.str "/k".toList), .mref 0]⟩ = true ∧
+    reresolves (valCtx true) rrDoc ⟨"/s\\ t/m\\/n".toList, [.key (.str "s t".toList), .member (.str "m/n".toList)]⟩ = true := by
+  decide +kernel
+
+/-- **K1** (`{1: x, '1': y}`): the hypothesis fails, and the printed `1` resolves to both entries -/
+example : okAddr (liveIn clashDoc) clashDoc [.key (.int 1)] = false ∧
+    reresolves ⟨{}, fun _ => true⟩ clashDoc ⟨"1".toList, [.key (.int 1)]⟩ = false ∧
+    resolve (liveIn clashDoc) clashDoc [(.key, .str "1".toList)] = [[.key (.int 1)], [.key (.str "1".toList)]] := by
+  decide +kernel
+
+/-- **K2** (`{'a*': a}`): `a*` is printed, which is a wildcard search, not a key -/
+def starDoc : SNode := .map none [(⟨none, .str "a*".toList⟩, .scalar none (.str "a".toList))] [] []
+example : search ⟨{}, fun _ => true⟩ starDoc = [⟨"a*".toList, [.key (.str "a*".toList)]⟩] ∧
+    okAddr (liveIn starDoc) starDoc [.key (.str "a*".toList)] = false ∧
+    reresolves ⟨{}, fun _ => true⟩ starDoc ⟨"a*".toList, [.key (.str "a*".toList)]⟩ = false := by decide +kernel
+
+/-- **K5** (`z: &z {}`, `m: {<<: *z}`): the empty merge source is falsy, `m[&z]` finds nothing -/
+def emptySrcDoc : SNode :=
+  .map none [(⟨none, .str "z".toList⟩, .map (some "z".toList) [] [] []),
+             (⟨none, .str "m".toList⟩, .map none [] [] ["z".toList])] [] []
+example : search (valCtx false) emptySrcDoc =
+      [⟨"z".toList, [.key (.str "z".toList)]⟩, ⟨"m.[&z]".toList, [.key (.str "m".toList), .mref 0]⟩] ∧
+    okAddr (liveIn emptySrcDoc) emptySrcDoc [.key (.str "m".toList), .mref 0] = false ∧
+    reresolves (valCtx false) emptySrcDoc ⟨"m.[&z]".toList, [.key (.str "m".toList), .mref 0]⟩ = false := by
+  decide +kernel
+
+/-- **K6** (found by the proof of `escapePathSection_eq`): a key with two adjacent backslashes.
+`escape_path_section('a\\b')` (four characters) is `a\\b` unchanged — the first `ensure_escaped` pass takes
+the pair for an escaped backslash — and that text denotes the key `a\b` (three characters). -/
+def dblDoc : SNode := .map none [(⟨none, .str ['a', '\\', '\\', 'b']⟩, .scalar none (.str "x".toList))] [] []
+example : escapePathSection '.' ['a', '\\', '\\', 'b'] = ['a', '\\', '\\', 'b'] ∧
+    escText '.' ['a', '\\', '\\', 'b'] = ['a', '\\', '\\', '\\', '\\', 'b'] ∧
+    parse true ['a', '\\', '\\', 'b'] = .ok [(.key, .str ['a', '\\', 'b'])] ∧
+    search ⟨{}, fun _ => true⟩ dblDoc = [⟨['a', '\\', '\\', 'b'], [.key (.str ['a', '\\', '\\', 'b'])]⟩] ∧
+    okAddr (liveIn dblDoc) dblDoc [.key (.str ['a', '\\', '\\', 'b'])] = false ∧
+    reresolves ⟨{}, fun _ => true⟩ dblDoc ⟨['a', '\\', '\\', 'b'], [.key (.str ['a', '\\', '\\', 'b'])]⟩ = false := by
+  decide +kernel
 
 end Ypv.C07
